@@ -25,6 +25,8 @@ import (
 	"pgregory.net/rapid"
 
 	"verif/harness/gen"
+	"verif/harness/interp"
+	"verif/harness/libexec"
 	"verif/harness/pbt"
 	"verif/harness/ref"
 )
@@ -200,11 +202,25 @@ func verifyCarrying(m ref.Tx, s int, ht int, afterGenesis bool, carry *ref.In) e
 		lockS := bscript.NewFromBytes(ref.Canary(m.In[s].PrevScript))
 		opts = []interpreter.ExecutionOptionFunc{interpreter.WithTx(tx, s, &bt.Output{Satoshis: m.In[s].PrevSats}), interpreter.WithScripts(lockS, tx.Inputs[s].UnlockingScript)}
 	}
+	// the flags go in through one of the equivalent forms the options allow (ninth round): the named
+	// options alone, one WithFlags, the named options before or behind a WithFlags carrying the rest
+	var fl interp.Flags
 	if ht&0x40 != 0 {
-		opts = append(opts, interpreter.WithForkID())
+		fl |= interp.FlagForkID
 	}
 	if afterGenesis {
-		opts = append(opts, interpreter.WithAfterGenesis())
+		fl |= interp.FlagAfterGenesis
+	}
+	switch form := (len(m.In[s].Unlock) + len(m.In) + len(m.Out) + s) % 4; form {
+	case 0:
+		if ht&0x40 != 0 {
+			opts = append(opts, interpreter.WithForkID())
+		}
+		if afterGenesis {
+			opts = append(opts, interpreter.WithAfterGenesis())
+		}
+	default:
+		opts = append(opts, libexec.FlagOpts(fl, form-1)...)
 	}
 	// an engine is the caller's object and may have served other executions before - without a
 	// transaction, or one that failed
